@@ -8,6 +8,16 @@ NOT_APPLICABLE = {
     'C03': 'C++ exception capture/transport/rethrow: CBMC\'s usable front end here is C, extraction drops try/catch, so no contract can mention the behaviour (DESIGN.md §6)',
 }
 CLAIMS = {
+    'C05': {
+        'technique': 'CBMC code contracts on functions sliced from blocked_range*.h / partitioner.h / parallel_for.h: loop-free full-domain harnesses (incl. IEEE float), dfcc loop contracts with ghost accounting, complete unwinding of the 8-slot range pool',
+        'text': 'Every split of a blocked_range (all sizes/grains, size_t/int/unsigned char; even and proportional) yields two adjacent non-empty halves; partitioner divisors are conserved and never underflow; the 8-slot range pool stays an ordered tiling under split_to_fill/pop_back/pop_front; the execute loops only ever split a divisible range, never run an empty one and what is offered plus what is run tiles the original range, for every steal/demand decision (nondeterministic stubs); parallel_for(first,last,step) trip count and k-th index for the complete domain of 8-bit Index types. F3 (signed span overflow) and F4 (2-D/3-D split above 2^52) are reported as KNOWN-FINDING.',
+        'note': 'Trusted: start_for::offer_work/run_body/spawn as contract stubs (a spawned task runs once is C01), SC not relevant (sequential code), CBMC float semantics. Not decided: wider Index types for parallel_for_impl (division beyond SAT reach), dynamic_grainsize_mode::work_balance as a whole, blocked_nd_range, parallel_for_each, parallel_invoke.',
+    },
+    'C08': {
+        'technique': 'rely/guarantee proofs on CBMC: every atomic primitive of the sliced mutex methods is preceded by arbitrary interference of any number of threads that preserves a ghost-census invariant; dfcc loop contracts for the spin loops; MCS token protocol for queuing_mutex',
+        'text': 'spin_mutex, spin_rw_mutex (all 8 methods incl. upgrade/downgrade) and queuing_mutex::scoped_lock (acquire/try_acquire/release): at most one writer/holder, no reader with a writer, try_* truthful and traceless on failure, upgrade ends as sole writer, downgrade is one atomic step, the queue lock token is handed over exactly once - for any number of threads and every interleaving under sequentially consistent atomics.',
+        'note': 'Trusted: SC atomics (memory orders dropped), closed-world scan for the state word, spin_wait_while_eq contract. Not decided: queuing_rw_mutex, rw_mutex/mutex (waitable-atomic variants), RTM variants, liveness, memory-model visibility.',
+    },
     'C11': {
         'technique': 'CBMC code contracts on functions sliced from concurrent_vector.h/_segment_table.h: loop-free full-domain harnesses, dfcc loop contracts, rely/guarantee on my_size/my_first_block',
         'text': 'For all 2^64 indices the index->(segment,offset) map is a bijection onto disjoint tiling segments; at() never reads a table entry beyond the active table and throws instead (F2); the thread that moves my_size constructs exactly the range it added, for every old/new size (F1); fetch_add-claimed ranges are pairwise disjoint for any number of threads (rely/guarantee, SC atomics); an element address is a function of its index and its segment allocation only.',
